@@ -222,6 +222,8 @@ def clone(v, memo):
         return n
     if isinstance(v, PyMap):
         n = PyMap(v.present, v.value)
+        if hasattr(v, "nonempty"):
+            n.nonempty = v.nonempty
         memo[id(v)] = n
         return n
     if isinstance(v, PyCache):
